@@ -205,6 +205,10 @@ type c15Grad struct {
 	far    bool
 	// hairline: offsets within 2^-20 of 0 or 1 without being 0 or 1
 	hairline bool
+	// the register bases the last setup used; with sameBases the next setup uses
+	// them again (the gradient then has the very same descriptor value)
+	cbase, nbase int
+	sameBases    bool
 }
 
 func c15Gen(r *run.Rng, small bool) *c15Grad {
@@ -305,11 +309,15 @@ func c15Gen(r *run.Rng, small bool) *c15Grad {
 func (q *c15Grad) setup(c *run.Ctx, z *render.Renderer, r *run.Rng) {
 	n := len(q.offs)
 	cbase, nbase := r.Intn(64), r.Intn(64)
+	if q.sameBases {
+		cbase, nbase = q.cbase, q.nbase
+	}
+	q.cbase, q.nbase = cbase, nbase
 	// One gradient in five takes its stop colours from where a new graphic finds
 	// them: the custom palette the colour registers are initialised from. The
 	// Renderer is Reset with such a palette and the stop registers (all but at most
 	// one) are never written.
-	fromPalette, keep := r.Chance(1, 5), -1
+	fromPalette, keep := r.Chance(1, 5) && !q.sameBases, -1
 	if fromPalette {
 		pal := ivg.DefaultPalette
 		for i, c := range q.cols {
@@ -482,15 +490,49 @@ func c15Gradient(c *run.Ctx, idx uint64) {
 	// reused, so anything it remembers from the previous gradient (ranges,
 	// caches) must not leak into the next one.
 	n := r.Pick(1, 1, 2, 2, 3)
+	g0 := q
 	for k := 0; k < n; k++ {
 		g := q
-		if k > 0 {
+		if k > 0 && r.Chance(1, 3) {
+			// the same gradient in every respect but the stops: same shape, spread,
+			// number of stops, registers and geometry - other colours, and other
+			// offsets half of the time
+			g2 := *g0
+			g2.sameBases = true
+			g2.cols = make([]color.RGBA, len(g0.cols))
+			for i := range g2.cols {
+				g2.cols[i] = gen.Premul(r)
+			}
+			if r.Bool() && !g0.hairline {
+				g2.offs = append([]float32(nil), g0.offs...)
+				for i := range g2.offs {
+					lo, hi := float32(0), float32(1)
+					if i > 0 {
+						lo = g2.offs[i-1]
+					}
+					if i+1 < len(g2.offs) {
+						hi = g0.offs[i+1]
+					}
+					if v := (lo + g0.offs[i]) / 2; v > lo && v < hi && (i == 0 || v > g2.offs[i-1]) {
+						g2.offs[i] = v
+					}
+				}
+			}
+			// the reference gradient is rebuilt from the new stops
+			g2.g.Stops = nil
+			for i := range g2.offs {
+				g2.g.Stops = append(g2.g.Stops, ref.GStop{Off: float64(g2.offs[i]), C: ref.Stop16(g2.cols[i])})
+			}
+			g = &g2
+			c.Count("same_gradient_with_other_stops", 1)
+		} else if k > 0 {
 			g = c15Like(r, q)
 			c.Count("gradients_after_another_gradient", 1)
 		}
 		if !c15DrawAndJudge(c, &z, rz, g, r, true) {
 			return
 		}
+		g0 = g
 		if r.Chance(1, 3) {
 			// The Renderer is pointed at a rectangle of another size and the same
 			// gradient (no register is written in between) fills another path: the
